@@ -386,3 +386,60 @@ def optional_hashable_tests(ctx: Ctx, kinds: tp.Sequence[str] = ('Hashable',)) -
                     ctx.bad(R, f, node, f'`{t.id}` (a label / name, default None) is tested by truthiness in `{norm(node)[:70]}`: the labels 0, "", False are treated as not given',
                             key=f'{f.qualname.split(".", 1)[1]}:{t.id}:truthiness')
     ctx.require(n >= FLOOR_OHT, "tests of optional label / name parameters")
+
+
+# (function, option): generators / functions whose every produced value depends on the option (confirmed by reading)
+OPTION_CONSULTED = (
+    ('type_blocks.TypeBlocks.axis_values', 'reverse', 'IndexHierarchy.__reversed__ and the reverse column iterator of Frame rely on it for every block layout'),
+)
+
+
+def option_consulted(ctx: Ctx) -> None:
+    R = 'I.option-consulted'
+    ctx.rule(R, 'an option that decides the order / form of everything a routine produces is consulted on every path that produces something: for each listed '
+             '(function, option) every `yield` / value `return` is reached only after a test of the option (or the option is handed on in the producing call); a fast '
+             'path that yields before looking at the option serves one layout in the default order whatever was asked (reversed() of a hierarchy over one 2-D block)', floor=1)
+    prog = ctx.prog
+    n = 0
+    for qual, opt, _why in OPTION_CONSULTED:
+        f = prog.func(qual)
+        ctx.require(opt in f.params, f'{qual} takes `{opt}`')
+
+        def mentions(e: ast.AST) -> bool:
+            return any(isinstance(x, ast.Name) and x.id == opt for x in ast.walk(e))
+
+        class C(flow.Client):
+            for_at_least_once = True
+
+            def __init__(self):
+                self.bad: tp.List[ast.AST] = []
+
+            def join(self, a, b):
+                return a and b
+
+            def refine(self, atom, st, truth):
+                return True if mentions(atom) else st
+
+            def on_expr(self, node, st):
+                if isinstance(node, (ast.Yield, ast.YieldFrom)) and not st and not (node.value is not None and mentions(node.value)):
+                    self.bad.append(node)
+                return st
+
+            def on_yield(self, node, st):
+                if not st and not (getattr(node, 'value', None) is not None and mentions(node.value)):
+                    if not any(b is node for b in self.bad):
+                        self.bad.append(node)
+                return st
+
+            def on_return(self, s, st):
+                if not st and getattr(s, 'value', None) is not None and not mentions(s.value):
+                    self.bad.append(s)
+        c = C()
+        flow.Engine(c).run(f.node.body, False)
+        n += 1
+        key = f'{qual.split(".", 1)[1]}:{opt}'
+        if c.bad:
+            ctx.bad(R, f, c.bad[0], f'`{norm(c.bad[0])[:60]}` produces values on a path that never looked at `{opt}`: callers asking for the other setting get this one', key=key)
+        else:
+            ctx.ok(R, f, f.node, f'every producing path consults `{opt}`', key=key)
+    ctx.require(n >= 1, 'option-consulted table')
